@@ -149,7 +149,9 @@ def run_case(case) -> Result:
         for i in range(1, len(got)):
             if got[i] is not None and got[i - 1] is not None and xs[i] is not None:
                 want = a * xs[i] + (1 - a) * got[i - 1]
-                if abs(got[i] - want) > 0.5 * 10.0**-r * 1.001 + 1e-9 * abs(want) + 1e-12:
+                # one rounding for r[t] plus (1-a) of one rounding for the stored r[t-1] (an implementation may
+                # legitimately carry its state unrounded and round only what it stores)
+                if abs(got[i] - want) > (0.5 + 0.5 * (1 - a)) * 10.0**-r * 1.001 + 1e-9 * abs(want) + 1e-12:
                     viol.append(Violation("recurrence-broken", "reading", f"index {i}: got {got[i]!r}, a*x+(1-a)*prev = {want!r}"))
                     break
     # (4) bounds
